@@ -291,8 +291,45 @@ def w_ps(task):
     return out
 
 
+# ---------------------------------------------------------------- (b3) bidirectional I/O buffers
+def check_iob(case):
+    g, want = G.iob_truth(case)
+    if (M.find_cycle(g) is not None) != M.reaches_itself(g):
+        raise AssertionError(f"reference model inconsistent on {case}")
+    built = G.build_iob(case)
+    got = observe(lambda: built)
+    return want, got, g
+
+
+def w_iob(task):
+    key, lo, hi = task
+    names = ("evaluations", "distinct_nontrivial", "iob_designs", "iob_cycle_expected", "iob_accept_expected",
+             "iob_cycle_o_to_i_only", "iob_cycle_oe_to_i_only", "iob_cross_bit_feed_accepted")
+    out = {"cov": {k: 0 for k in names}, "samples": [], "violations": [], "kinds": {}, "by_style": {}}
+    cov = out["cov"]
+    for case in _SPACE[key][lo:hi]:
+        want, got, g = check_iob(case)
+        cov["evaluations"] += 1
+        cov["iob_designs"] += 1
+        cov["distinct_nontrivial"] += any(g.values())
+        if want == "ok":
+            cov["iob_accept_expected"] += 1
+            cov["iob_cross_bit_feed_accepted"] += any(g.values())
+        else:
+            cov["iob_cycle_expected"] += 1
+            if case["oe"] == "x":
+                cov["iob_cycle_o_to_i_only"] += 1
+            if all(s == "x" for s in case["o"]):
+                cov["iob_cycle_oe_to_i_only"] += 1
+        if got != want:
+            out["violations"].append({"sig": f"{G.iob_sig(case)}:got={got}:want={want}",
+                                      "what": f"bidirectional buffer {G.iob_sig(case)}: conversion outcome {got}, expected {want}",
+                                      "payload": case})
+    return out
+
+
 def _dispatch(t):
-    return (t[0], {"drv": w_drv, "dep": w_dep, "ps": w_ps, "wr": w_wr}[t[0]](t[1]))
+    return (t[0], {"drv": w_drv, "dep": w_dep, "ps": w_ps, "wr": w_wr, "iob": w_iob}[t[0]](t[1]))
 
 
 def plan(rep):
@@ -336,6 +373,9 @@ def plan(rep):
     _SPACE[key] = [c for w in wr_widths for c in G.wr_cases(w)]
     for lo in range(0, len(_SPACE[key]), 400):
         tasks.append(("wr", (key, lo, lo + 400)))
+    # loops through a bidirectional IOBufferInstance (same space in both tiers)
+    _SPACE[("iob",)] = list(G.iob_cases())
+    tasks.append(("iob", (("iob",), 0, len(_SPACE[("iob",)]))))
     # run-time part selects of every shape feeding one window bit / the whole window back (same space in both tiers)
     key = ("ps",)
     _SPACE[key] = list(G.ps_cases())
@@ -408,6 +448,8 @@ def run(rep):
                "wrapped at top / at child in every listed chain of ResetInserter / EnableInserter (value form, dicts naming 1..3 "
                "domains) / DomainRenamer (maps keeping domains apart and maps merging them) / nestings of two; expected = the same "
                "set-arithmetic oracle on the owners after the renamers' substitution (inserters change nothing). "
+               "(b3) every bidirectional IOBufferInstance of width 1..2 whose o bits and oe are each computed (wire / ~ / &) from a free "
+               "input or from one of its own i bits, directly or through a second signal: i[k] depends on o[k] and on oe. "
                "(b'') every run-time bit_select(off, 1..3) / word_select(off, 1..2) on a (signed|unsigned) value of width 3..6 (whole "
                "signal, low or high slice, directly or through a second signal) with a 1..3 bit offset (free input or bits of the "
                "same signal), each single window bit and the whole window assigned to every bit / slice of the signal: "
@@ -441,6 +483,9 @@ def run(rep):
         rep.require(rep.cov.get(key, 0) > 0, f"{key} is zero")
     for key in WR_COUNTERS[3:]:
         rep.require(rep.cov.get(key, 0) > 0, f"{key} is zero")
+    for key in ("iob_cycle_expected", "iob_accept_expected", "iob_cycle_o_to_i_only", "iob_cycle_oe_to_i_only",
+                "iob_cross_bit_feed_accepted"):
+        rep.require(rep.cov.get(key, 0) > 0, f"{key} is zero")
     for key in ("ps_cycle_expected", "ps_accept_expected", "ps_coarse_only_unspecified", "ps_cycle_needs_stride_1",
                 "ps_cycle_through_offset_only", "ps_cycle_through_sign_bit_only", "ps_cycle_single_window_bit",
                 "ps_cycle_whole_window"):
@@ -467,6 +512,8 @@ def replay(payload):
         want, got = check_drv(payload)
     elif payload["part"] == "wr":
         want, got = check_wr(payload)
+    elif payload["part"] == "iob":
+        want, got = check_iob(payload)[:2]
     elif payload["part"] == "ps":
         want, got = check_ps(payload)[:2]
     else:
